@@ -32,6 +32,7 @@ import json
 import os
 import random
 
+from harness import json_model
 from harness.props import _store_common as sc
 from harness.props._store_common import Recorder, Unserialisable, dec_value, enc_value, strict_eq
 from uberjob._testing import TestMountedFileStore
@@ -670,6 +671,10 @@ def explore(ctx, seed_shift=0):
         explore_text(ctx, rng, stats, violations, disagreements)
         if not violations and not disagreements:
             explore_decoders(ctx, rng, stats, disagreements)
+        if not violations and not disagreements:
+            # the JSON model (Json.render / Json.parse, proved to round-trip) against the real JsonFileStore
+            quick = ctx.tier == "quick"
+            json_model.explore_json(ctx, rng, stats, disagreements, 120 if quick else 2500, 500 if quick else 12000)
         if not violations:
             explore_values(ctx, rng, stats, violations)
         if not violations:
